@@ -7,6 +7,11 @@ from . import gram, finder
 def run(ctx):
     g = ctx.grammar
     facts = ctx.bin
+    # decoys are "never modified": an edit run rewrites the whole file from the text it read, so that text must be
+    # the file's exact bytes (premise shared with C03-R1: a lossy decode or a stripped BOM changes comment text too)
+    from . import c03
+    from .c09 import _run_as
+    _run_as(c03, c03._Only(ctx, "C11-R2", ("read-exact", "contents-unmodified", "contents-passed", "partial-write", "copy-shape", "scratch-write-census")), ctx)
     P = "C11-G"
     from .confimm import rule_config_as_loaded
     rule_config_as_loaded(ctx, facts, "C11-R1")
@@ -18,6 +23,7 @@ def run(ctx):
     gram.g8_no_backslash_first(ctx, g, P)
     gram.g16_strings_atomic(ctx, g, P)
     gram.g17_string_escapes(ctx, g, P)
+    gram.g13_qualified(ctx, g, P)
     gram.g12_scan_strings(ctx, g, P, require_string=False)
     finder.rule_macro_filter(ctx, facts, "C11-R1")
     finder.rule_filter_before_entry(ctx, facts, "C11-R1")
